@@ -277,8 +277,46 @@ def run_real(case, res):
         shutil.rmtree(tmp, ignore_errors=True)
 
 
+def run_sequence(case, res):
+    """several input files validated one after the other in ONE process (a batch script, a server): the verdict on each file is the
+    reference's, whatever was validated before it"""
+    tmp = Path(tempfile.mkdtemp(prefix="vf-c18-"))
+    try:
+        steps = []
+        for name in case["files"]:
+            inst = load_base(name)
+            steps.append((name, "valid", inst))
+        # ... and, last, the last file with one required geometry key removed
+        name = case["files"][-1]
+        bad = load_base(name)
+        key = sorted(k for k in bad["geometric_constraints"] if k not in ("method",))[0]
+        del bad["geometric_constraints"][key]
+        steps.append((name, f"without geometric_constraints.{key}", bad))
+        for k, (name, what, inst) in enumerate(steps):
+            f = tmp / f"s{k}.json"
+            f.write_text(json.dumps(inst))
+            res["evals"] += 1
+            want = SCH.accepts(inst)
+            got = validate_verdict(f)
+            ok = (got == ("count", 0)) == want
+            code, _, _ = cli(["--validate-only", f])
+            if not ok or (code == 0) != want:
+                res["violations"].append(core.viol("validation_verdict_wrong", dict(case, upto=k + 1), observed=[list(got), code], expected=want,
+                                                   msg=f"file #{k + 1} of the sequence {case['files']} ({name}, {what}): validate_input_file -> {got}, --validate-only exits {code}, reference verdict "
+                                                       f"{'accept' if want else 'reject'}", direction="rejects_valid" if want else "accepts_invalid", op="sequence"))
+                break
+        res.outcome("file_sequences")
+        res["nontrivial"] += 1
+        res["sample"] = dict(case)
+    finally:
+        shutil.rmtree(tmp, ignore_errors=True)
+
+
 def run_case(case):
     res = core.Result(evals=0)
+    if case.get("kind") == "sequence":
+        run_sequence(case, res)
+        return res
     if "label" in case:  # single replay: recompute that one corruption
         inst0 = load_base(case["file"])
         allc = list(corruptions(inst0))
@@ -307,6 +345,9 @@ def main(run: core.Run, only=None):
             cases.append({"file": name, "lo": lo, "hi": min(n, lo + step)})
     run.drive(cases, family="corruptions")
     run.drive([{"kind": "modes", "file": name} for name in use], family="option-modes")
+    pick = [f for f in files if any(t in f for t in ("near_square_single", "rectangle_coaxial", "bi_rectangle_double", "rowwise", "bi_zoned", "near_square_coaxial", "constrained"))]
+    seqs = [{"kind": "sequence", "files": [a, b]} for a in pick for b in pick if a != b]
+    run.drive(seqs if not quick else seqs[::3], family="file-sequences")
     real = [{"kind": "real", "method": "nearsquare", "pipe": "single", "unwritable": True, "unsupported_option": ["EPJSON"] if quick else ["EPJSON", "XYZ", "json"]}, {"kind": "real", "method": "rectangle", "pipe": "coaxial", "subprocess": True}]
     if not quick:
         real += [{"kind": "real", "method": "birectangle", "pipe": "double_series"}, {"kind": "real", "method": "rowwise", "pipe": "single", "subprocess": True},
@@ -320,5 +361,5 @@ def main(run: core.Run, only=None):
         assumptions=["exit status observed as SystemExit of click's standalone main(), which is what the console script does; two "
                      "real runs go through a real subprocess", "for inputs the reference rejects the design step is blocked by the "
                      "harness (it must never be reached)"],
-        require_outcomes=("reference_accepts", "reference_rejects", "option_modes", "unsupported_option_with_output_dir"),
+        require_outcomes=("reference_accepts", "reference_rejects", "option_modes", "unsupported_option_with_output_dir", "file_sequences"),
     )
